@@ -465,6 +465,21 @@ def w_check(case):
         res.claim("repeated:step_fourier_is_n_fold", float(np.max(np.abs(np.asarray(gh) - np.asarray(xh)))), 1e-10 * (float(np.max(np.abs(np.asarray(xh)))) + float(np.max(np.abs(np.asarray(uh))))) * n, key=key + ":step_fourier")
     for attr in ("num_spatial_dims", "num_points", "num_channels"):
         res.true("repeated:attr:" + attr, getattr(RS, attr) == getattr(S, attr), key=key + ":attrs")
+    # nesting: a repeated stepper is itself a stepper - RepeatedStepper(RepeatedStepper(S, n), m) = n*m applications with an
+    # effective dt of n*m*dt
+    m_ = 2 + case["seed"] % 2
+    if n >= 1 and n * m_ <= 12:
+        ok, RR = res.lib("construct_nested", lambda: ex.RepeatedStepper(ex.RepeatedStepper(S, n), m_), key=key + ":nested")
+        if ok:
+            res.claim("nested_repeated:dt_is_n_m_dt", abs(float(RR.dt) - n * m_ * float(S.dt)), 1e-14 * abs(n * m_ * float(S.dt)), key=key + ":nested:dt", msg="n=%d m=%d dt=%g" % (n, m_, float(RR.dt)))
+            y = jnp.asarray(u)
+            for _ in range(n * m_):
+                y = S(y)
+            y = np.asarray(y)
+            if np.all(np.isfinite(y)) and np.max(np.abs(y)) <= 1e3:
+                ok, gy = res.lib("call_nested", RR, jnp.asarray(u), key=key + ":nested")
+                if ok:
+                    res.claim("nested_repeated_equals_n_m_applications", float(np.max(np.abs(np.asarray(gy) - y))), 1e-10 * max(sc, float(np.max(np.abs(y)))) * n * m_, key=key + ":nested")
     res.nontrivial = bool(n >= 2 and np.max(np.abs(want - u)) > 1e-9 * sc)
     return res
 
